@@ -4,8 +4,11 @@ From PKO Require Import Base Owner Api Phase PhaseProofs ObjectSet ObjectSetProo
 Import ListNotations.
 
 (** Available=True is newly written for generation G only by a pass that read generation G, in which
-    every object of every phase existed and passed the probes, with a controllerOf list in which every
-    entry was seen controlled by the ObjectSet and which is complete. *)
+    every object of every local phase existed and passed the probes and every delegated phase's phase object,
+    as read in this pass, carried Available=True for its own current generation; with a controllerOf list in
+    which every entry was seen controlled by the ObjectSet or is reported by such a phase object, and which is
+    complete for the local phases. (Restated: with delegated phases the list also relays what their phase
+    objects report; for an ObjectSet without delegated phases this is the former statement.) *)
 Theorem C06_available_true_justified :
   forall force sw k ns n mem0 sw' evs r rev conds ctrlof rem fph ok cd,
     find_set (sw_sets sw) k ns n = Some mem0 -> is_active mem0 ->
@@ -15,7 +18,8 @@ Theorem C06_available_true_justified :
     find_cond (os_conds mem0) CAvailable <> Some cd ->
     cd_gen cd = os_gen mem0 /\ fph = None /\
     (forall q, In q (local_phases mem0) -> phase_ok (sw_w sw') (as_owner mem0) q) /\
-    (forall key, In key ctrlof -> seen_controlled (sw_w sw') (as_owner mem0) key) /\
+    (forall q, In q (delegated_phases mem0) -> exists cur, phase_read evs (pobj_name mem0 q) cur /\ avail_current cur) /\
+    (forall key, In key ctrlof -> seen_controlled (sw_w sw') (as_owner mem0) key \/ reported_by_phase mem0 (os_phases mem0) evs key) /\
     (forall key, In key (flat_map (phase_keys (as_owner mem0)) (local_phases mem0)) ->
                  seen_controlled (sw_w sw') (as_owner mem0) key -> In key ctrlof).
 Proof. exact C06_available_true_justified_all. Qed.
@@ -24,9 +28,9 @@ Print Assumptions C06_available_true_justified.
 (** Succeeded is set only while Available and not InTransition, and the status computation never
     withdraws it. *)
 Theorem C06_succeeded_rule :
-  forall m ctrlof failed,
-    (cond_true (os_conds m) CSucceeded = true -> cond_true (os_conds (final_status m ctrlof failed)) CSucceeded = true) /\
-    (cond_true (os_conds m) CSucceeded = false -> cond_true (os_conds (final_status m ctrlof failed)) CSucceeded = true ->
+  forall phs m ctrlof failed,
+    (cond_true (os_conds m) CSucceeded = true -> cond_true (os_conds (final_status phs m ctrlof failed)) CSucceeded = true) /\
+    (cond_true (os_conds m) CSucceeded = false -> cond_true (os_conds (final_status phs m ctrlof failed)) CSucceeded = true ->
        failed = None /\ in_transition (set_ctrlof m ctrlof) ctrlof = false).
 Proof. exact final_status_succeeded. Qed.
 Print Assumptions C06_succeeded_rule.
@@ -39,15 +43,17 @@ Theorem C06_succeeded_never_withdrawn :
 Proof. exact C06_succeeded_never_withdrawn. Qed.
 Print Assumptions C06_succeeded_never_withdrawn.
 
-(** InTransition is cleared only if every object of the spec is in the reported controllerOf. *)
+(** InTransition is cleared only if every object of the spec is covered by the reported controllerOf: named
+    by an entry, or named without a namespace by an entry of the same group, kind and name (the matching
+    isObjectSetInTransition applies to references that come from (Cluster)ObjectSetPhase status). *)
 Theorem C06_in_transition_cleared :
-  forall m ctrlof failed,
-    find_cond (os_conds (final_status m ctrlof failed)) CInTransition = None ->
+  forall phs m ctrlof failed,
+    find_cond (os_conds (final_status phs m ctrlof failed)) CInTransition = None ->
     os_life m <> LArchived ->
-    forall p, In p (all_objects m) -> In (spec_key (set_ctrlof m ctrlof) p) ctrlof.
+    forall p, In p (all_objects m) -> covers ctrlof (spec_key (set_ctrlof m ctrlof) p).
 Proof.
-  exact (fun m ctrlof failed H Hl p Hp =>
-           not_in_transition_all_controlled (set_ctrlof m ctrlof) ctrlof (final_status_in_transition m ctrlof failed H) Hl p Hp).
+  exact (fun phs m ctrlof failed H Hl p Hp =>
+           not_in_transition_all_controlled (set_ctrlof m ctrlof) ctrlof (final_status_in_transition phs m ctrlof failed H) Hl p Hp).
 Qed.
 Print Assumptions C06_in_transition_cleared.
 
